@@ -107,7 +107,20 @@ def run_fault_end(spec):
                 # while the reader of this one has already been woken
                 slow = peer.gw.newchannel()
                 slow.setcallback(lambda x: time.sleep(0.15) if x is None else None, endmarker=None)
-            ending = rng.choice(("connection_loss", "connection_loss", "local_close"))
+            ending = rng.choice(("connection_loss", "connection_loss", "local_close", "garbage_frame", "undecodable_item_elsewhere"))
+            bystander = peer.gw.newchannel()
+
+            def end_it():
+                if ending == "local_close":
+                    ch.close()
+                elif ending == "garbage_frame":
+                    # the peer goes mad rather than silent: a frame with an unknown message code ends the receiving side
+                    peer.feed(codec.frame(99, 0, b"garbage"))
+                elif ending == "undecodable_item_elsewhere":
+                    peer.feed(codec.frame(M["CHANNEL_DATA"], bystander.id, b"\xff\xfe not an item"))
+                else:
+                    peer.close_peer()
+
             ref = (io.StringIO if text else io.BytesIO)((("" if text else b"").join(items)))
             peer.feed(b"".join(codec.frame(M["CHANNEL_DATA"], ch.id, codec.encode(i, versioned=False)) for i in items))
             if ending == "local_close":
@@ -115,7 +128,7 @@ def run_fault_end(spec):
                 pairs.wait_until(lambda: ch._items.qsize() >= len(items), 5.0)
             cut_first = rng.random() < 0.5
             if cut_first:
-                ch.close() if ending == "local_close" else peer.close_peer()
+                end_it()
             got: list = []
 
             def reader():
@@ -130,7 +143,7 @@ def run_fault_end(spec):
             t.start()
             if not cut_first:
                 time.sleep(0.01)
-                ch.close() if ending == "local_close" else peer.close_peer()
+                end_it()
             t.join(10)
             want = [ref.readline() if c == "L" else ref.read(c) for c in script]
             res.count("read_calls", len(script))
@@ -144,8 +157,46 @@ def run_fault_end(spec):
                 res.violation("channelfile-differs-from-file:after-connection-loss", f"{label}: got {got} want {want}")
         finally:
             peer.shutdown(2)
+    two_files_on_one_channel(res, rng, 10 if spec["tier"] == "quick" else 300)
     res.sample({"fault_end_runs": spec["n"]})
     return res
+
+
+def two_files_on_one_channel(res, rng, n):
+    """several files made from one channel are separate files: each keeps the proxyclose it was made with, closing one
+    says nothing about the other"""
+    from vlib import chanlab
+
+    lab = chanlab.Lab("pipe", rng.getrandbits(32))
+    try:
+        for i in range(n):
+            mode = "w" if i % 2 else "r"
+            first_proxy = bool((i // 2) % 2)
+            lc, rc = lab.pair_newchannel_local()
+            f1 = lc.makefile(mode, proxyclose=first_proxy)
+            f2 = lc.makefile(mode, proxyclose=not first_proxy)
+            label = f"makefile({mode!r}, proxyclose={first_proxy}) then makefile({mode!r}, proxyclose={not first_proxy}) on one channel"
+            res.count("two_file_cases")
+            res.case(core.h64("two-files", mode, first_proxy))
+            closer, other = (f2, f1) if rng.random() < 0.5 else (f1, f2)
+            closer_proxy = (not first_proxy) if closer is f2 else first_proxy
+            closer.close()
+            if lc.isclosed() != closer_proxy:
+                res.violation("proxyclose-of-another-file-applied", f"{label}: closed the file made with proxyclose={closer_proxy}; channel closed: {lc.isclosed()}")
+            if mode == "w":
+                try:
+                    other.write("x")
+                    other.flush()
+                    wrote = True
+                except OSError:
+                    wrote = False
+                if wrote == closer_proxy and not (f1 is f2):
+                    res.violation("write-after-close-wrong:two-files", f"{label}: after closing the proxyclose={closer_proxy} file, write on the other {'succeeded' if wrote else 'raised OSError'}")
+            if not lc.isclosed():
+                lc.close()
+            rc.close() if not rc.isclosed() else None
+    finally:
+        lab.close()
 
 
 def run_eof_state(spec):
